@@ -41,7 +41,7 @@ ASSUMPTIONS = E1_ASSUMPTIONS + [
     "in a multi-input call all inputs share the output directory: the top-level index.rst is excluded from comparison, and the "
     "worlds of one history use disjoint top-level names",
     "output directories are never inside the input tree here"]
-PROBES = ["op_run", "op_run_file", "op_run_many", "op_stdout", "op_api", "op_documenter", "op_companion", "relocated", "cwd_changed",
+PROBES = ["op_run", "op_run_files", "op_run_file", "op_run_many", "op_stdout", "op_api", "op_documenter", "op_companion", "relocated", "cwd_changed",
           "listing_key_changed", "world_of_interest_first", "world_of_interest_last", "world_of_interest_middle",
           "default_prefix", "explicit_prefix", "repeat_same_world_ge_3", "companion_hashseed_differs"]
 
@@ -83,6 +83,7 @@ def swarm(rng, tier):
         "prefix": rng.choice([None, None, "pfx"]),
         "patterns": rng.random() < 0.3,
         "classes": rng.random() < 0.5,
+        "duplicates": rng.random() < 0.4,
     }
 
 
@@ -91,7 +92,8 @@ def strategy(cfg):
     def world(draw):
         worlds = []
         for i in range(cfg["worlds"]):
-            raw = gen.draw_tree(draw, max_depth=2, max_files=2, max_subdirs=2, max_cmds=2, budget=3)
+            raw = gen.draw_tree(draw, max_depth=2, max_files=2, max_subdirs=2, max_cmds=2, budget=3,
+                                duplicates=cfg.get("duplicates", False))
             gen.fix_for_auto_exclude(raw)
             tree = {}
             for rel, c in raw.items():
@@ -107,7 +109,7 @@ def strategy(cfg):
                 tree[f"w{i}_classes.cmake"] = cmakegen.render(desc, f"c{i}").text
             worlds.append({"name": f"proj{i}", "tree": tree})
         ops = []
-        kinds = ["run", "run", "run", "stdout", "run_file"]
+        kinds = ["run", "run", "run", "stdout", "run_file", "run_files"]
         if cfg["worlds"] > 1:
             kinds += ["run_many", "run_many"]
         if cfg["api"]:
@@ -239,6 +241,30 @@ def evaluate(spec, ctx):
                     viols.append(viol("run-failed", f"step {opi} (single file): status {res.status} exc {res.exc}"))
                     break
                 record(w, "file:" + rel, opi, core.read_tree(base, "out"), op)
+            elif op["op"] == "run_files":
+                # several lone files of the world in one call, each must come out as if documented alone
+                cmf = sorted(f for f in refs.tree_files(spec["worlds"][w]["tree"]) if refs.is_cmake(f))
+                stems_seen, chosen = set(), []
+                start = op.get("f", 0)
+                for j in range(len(cmf)):
+                    rel = cmf[(start + j) % len(cmf)]
+                    st_ = refs.stem(posixpath.basename(rel))
+                    if st_ not in stems_seen and len(chosen) < 4:
+                        stems_seen.add(st_)
+                        chosen.append(rel)
+                if len(chosen) < 2:
+                    continue
+                args = ["{BASE}/" + posixpath.join(target, rel) for rel in chosen]
+                res = core.run_call(base, {"cwd": "", "argv": ["-o", "{BASE}/out"] + extra + args,
+                                           "listing_key": op["key"]}, snap=False)
+                ctx.note_call(res)
+                if res.status != 0:
+                    viols.append(viol("run-failed", f"step {opi} (several files): status {res.status} exc {res.exc}"))
+                    break
+                pages = core.read_tree(base, "out")
+                for rel in chosen:
+                    name = refs.stem(posixpath.basename(rel)) + ".rst"
+                    record(w, "file:" + rel, opi, {name: pages[name]} if name in pages else {}, op)
             elif op["op"] == "stdout":
                 res = core.run_call(base, {"cwd": cwd, "argv": ["-r"] + extra + [arg], "listing_key": op["key"]}, snap=False)
                 ctx.note_call(res)
